@@ -37,6 +37,22 @@ class Genotype:
         return self.dna[ty][n]
 
 
+class GenotypeBackedSource(RandomSource):
+    """Answers the draws made outside the decider (e.g., by metahandlers) from
+    the genotype, so that the mapping only depends on the genotype."""
+
+    def __init__(self, decider: DynamicSGEDecider):
+        self.decider = decider
+
+    def randint(self, min: int, max: int) -> int:
+        v = self.decider.read(RandomSource)
+        return v % (max - min + 1) + min
+
+    def random_float(self, min: float, max: float) -> float:
+        k = self.randint(1, MAX_GENE_VALUE)
+        return 1 * (max - min) / k + min
+
+
 class DynamicSGEDecider(SynthesisDecider):
     def __init__(self, genotype: Genotype, grammar: Grammar, max_depth: int = 10, max_string_length: int = 128):
         self.genotype = genotype
@@ -126,7 +142,7 @@ class DynamicStructuredGrammaticalEvolutionRepresentation(
 
     def genotype_to_phenotype(self, genotype: Genotype) -> TreeNode:
         decider = DynamicSGEDecider(genotype, self.grammar, self.max_depth)
-        return random_tree(genotype.random, self.grammar, decider)
+        return random_tree(GenotypeBackedSource(decider), self.grammar, decider)
 
     def mutate(self, random: RandomSource, genotype: Genotype, **kwargs) -> Genotype:
         dna = {k: list(v) for k, v in genotype.dna.items()}  # keys are types: copying them would change their identity
